@@ -348,7 +348,11 @@ func cmdLoadCorrupt(args []string) {
 		li := r.Intn(len(lines))
 		f := strings.Fields(lines[li])
 		switch r.Intn(13) {
-		case 0: // delete a field
+		case 0: // delete a field (one time in four: all of them, which leaves the comma alone on the line)
+			if len(f) > 0 && r.Intn(4) == 0 {
+				lines[li] = []string{",", " , ", ",,", "\t,\t; nothing left"}[r.Intn(4)]
+				break
+			}
 			if len(f) > 0 {
 				j := r.Intn(len(f))
 				f = append(f[:j:j], f[j+1:]...)
